@@ -4,12 +4,14 @@
 package browse
 
 import (
+	"io"
 	"net/http"
 	"net/url"
 	"os"
 	"strings"
 	"text/template"
 
+	"github.com/mholt/archiver/v3"
 	"github.com/tmpim/casket/caskethttp/staticfiles"
 	"github.com/tmpim/casket/zzverif/verifrt"
 )
@@ -120,4 +122,44 @@ func VerifH02cListing() {
 	}
 	verifrt.Assert(len(listing.Items) >= 1, "visible-files-listed")
 	verifrt.Observe("listing", names)
+}
+
+// zzArchiveWriter stands in for the archive encoder (tar/zip/... from mholt/archiver) under the
+// engine: it writes each member's name and bytes to the output, which is all the property is about
+// (which files are in the archive). Natively the real tar writer runs; file bytes appear verbatim in
+// a tar stream.
+type zzArchiveWriter struct{ out io.Writer }
+
+func (a *zzArchiveWriter) Create(out io.Writer) error { a.out = out; return nil }
+func (a *zzArchiveWriter) Write(f archiver.File) error {
+	io.WriteString(a.out, "<"+f.Name()+">")
+	if f.ReadCloser != nil {
+		b, err := io.ReadAll(f.ReadCloser)
+		if err != nil {
+			return err
+		}
+		a.out.Write(b)
+	}
+	return nil
+}
+func (a *zzArchiveWriter) Close() error { return nil }
+
+// VerifH02dArchive: a directory archive (browse ?archive=tar) never contains a hidden file.
+func VerifH02dArchive() {
+	verifrt.Terminates()
+	verifrt.Concurrent(-1)
+	root := zzSite()
+	fs := staticfiles.FileServer{Root: http.Dir(root), Hide: []string{"/d/h", "/h2"}}
+	bc := Config{PathScope: "/", Fs: fs, ArchiveTypes: []ArchiveType{ArchiveTar}, BufferSize: 64}
+	b := Browse{Next: &zzNext{}, Configs: []Config{bc}}
+	verifrt.Stub("(github.com/tmpim/casket/caskethttp/browse.ArchiveType).GetWriter", func(ArchiveType) archiver.Writer { return &zzArchiveWriter{} })
+	dir := []string{"/", "/d/", "/d/../", "/./d/"}[verifrt.Choose("dir", 4)]
+	r := &http.Request{Method: "GET", URL: &url.URL{Path: dir, RawQuery: "archive=tar"}, Header: http.Header{}, Host: "h"}
+	w := &zzClient{}
+	status, _ := b.ServeHTTP(w, r)
+	body := string(w.body)
+	verifrt.Assert(!strings.Contains(body, "H"), "hidden-file-not-in-archive")
+	verifrt.Assert(!strings.Contains(body, "O"), "nothing-outside-the-root-in-archive")
+	verifrt.Assert(status != 0 || strings.Contains(body, "X"), "visible-files-in-archive")
+	verifrt.Observe("archive", status, w.status, strings.Contains(body, "X"))
 }
